@@ -310,7 +310,7 @@ def build(tier):
     vcs += tv
     fns += tf
     return {
-        'targets': cspec.build() + sspec.build(), 'vcs': vcs, 'functions': fns,
+        'targets': cspec.build() + sspec.build(tier), 'vcs': vcs, 'functions': fns,
         'decided': [
             'index/index0/size/dims0 and every recursion level of get_index/get_index0/product/get_dims0 for ranks 1..5 equal the row-major spec functions; no intermediate overflows given suffix products <= 2^62',
             'spec-function lemmas: row-major offset is injective on the index box, onto [0,size), lexicographically monotone',
